@@ -78,6 +78,13 @@ func (C07Mon) After(w *core.World, st *core.Step) {
 	}
 	switch st.Cmd() {
 	case "status":
+		if len(st.Argv) == 1 && st.Exit != 0 && st.Signal == "" && !st.Res.TimedOut && !HasConflict(idx0) {
+			// the staged-changes report is not given at all although the staging area and HEAD decode
+			if _, ok := expectWorktreeReport(st.Pre); ok {
+				c.Oracle("C07.status-set")
+				w.Fail("C07.status-set", "status-fails", "none", "%s exits %d on a repository whose staging area, HEAD and objects decode: %s", st.String(), st.Exit, clipS(firstLine(st.Stdout+st.Stderr), 160))
+			}
+		}
 		if len(st.Argv) != 1 || st.Exit != 0 {
 			return
 		}
@@ -323,6 +330,31 @@ func runC07(c *core.Ctx) {
 			w.Write(p, k.content())
 		}
 		k.Do("commit-all")
+		if w.Hist == base+1 || (c.Thorough() && (w.Hist-base)%1000 == 1) {
+			// width: one directory with more than 2048 sub-directories (and a root with several hundred)
+			var wide []string
+			for i := 0; i < 2100; i++ {
+				wide = append(wide, fmt.Sprintf("wide/d%04d/f", i))
+			}
+			for i := 0; i < 300; i++ {
+				wide = append(wide, fmt.Sprintf("r%03d/g", i))
+			}
+			w.EditMany(wide, 1)
+			k.goit("add", ".")
+			k.goit("status")
+			k.goit("commit", "-m", "wide")
+			k.goit("status")
+			k.goit("commit", "-m", "nothing")
+			w.Write("wide/d2090/f", []byte("changed\n"))
+			k.goit("add", "wide/d2090/f")
+			k.goit("status")
+			k.goit("commit", "-m", "one of many")
+			k.goit("status")
+			k.goit("rm", "wide/d0000/f", "r299/g")
+			k.goit("status")
+			k.goit("commit", "-m", "two fewer")
+			c.Count("scale.wide-tree-histories")
+		}
 		if w.Hist%12 == 8 {
 			// scale: a staged set of 120..400 paths (staging-area file and root tree beyond 4 KiB)
 			big := k.Populate(120 + k.R.IntN(280))
@@ -596,6 +628,17 @@ func writeIgnoreScenario(k *Walker) {
 	for _, rp := range related {
 		w.Write(rp[0], k.content())
 	}
+	if r.IntN(5) == 0 {
+		// one rule that is not valid UTF-8 (a Latin-1 name): whatever it hides or not, the other rules keep counting
+		odd := [][2]string{{"caf\xe9/", "caf\xe9/menu.txt"}, {"*.\xfcml", "doc.\xfcml"}, {"\xff\xfe/", "\xff\xfe/x"}}[r.IntN(3)]
+		if r.IntN(2) == 0 {
+			lines = append(lines, odd[0])
+		} else {
+			lines = append([]string{odd[0]}, lines...)
+		}
+		w.Write(odd[1], k.content())
+		k.W.C.Count("scale.non-utf8-ignore-rule")
+	}
 	if r.IntN(6) == 0 {
 		// scale: an ignore file of 5..12 KiB; the rules that matter come first, in the middle or last
 		var pad []string
@@ -630,7 +673,7 @@ func runC13(c *core.Ctx) {
 	n := c.Pick(500, 4000)
 	c.RunHistories(n, Registry["C13"].Mons, func(w *core.World) {
 		wts := map[string]int{
-			"edit-new": 12, "edit-copy": 2, "edit-copydir": 1, "edit-swap": 3, "edit-mod": 10, "edit-mod-samesize": 5, "edit-rm": 6, "edit-rmdir": 3, "edit-same": 2, "edit-touch": 2,
+			"edit-twin-file": 4, "edit-mod-old": 3, "edit-new": 12, "edit-copy": 2, "edit-copydir": 1, "edit-swap": 3, "edit-mod": 10, "edit-mod-samesize": 5, "edit-rm": 6, "edit-rmdir": 3, "edit-same": 2, "edit-touch": 2,
 			"add": 12, "rm": 3, "commit": 3, "status": 26, "restore": 2, "reset": 1, "add-all": 1,
 		}
 		k := NewWalker(w, gen.NameOpts{Space: true, NonASCII: w.Hist%3 == 0, Meta: w.Hist%4 == 0, MaxDepth: 4, N: 7}, wts)
@@ -653,6 +696,25 @@ func runC13(c *core.Ctx) {
 			} else {
 				k.AddAllTracked()
 			}
+		}
+		if w.Hist == 3 || (c.Thorough() && w.Hist%1000 == 3) {
+			// sizes: tracked files just beyond 16, 32 and 64 MiB (where "too big to load" paths begin), unchanged, then one
+			// of them rewritten with other bytes of the same length, then only touched
+			for _, mib := range []int64{16, 32, 64} {
+				w.EditRand(fmt.Sprintf("huge/%dMiB.bin", mib), fmt.Sprint("c13-huge-", mib), mib<<20+5)
+			}
+			k.goit("add", "huge")
+			k.goit("status")
+			w.EditRand("huge/32MiB.bin", "c13-huge-other", 32<<20+5)
+			k.goit("status")
+			w.Edit("touch", "huge/64MiB.bin", nil)
+			k.goit("status")
+			k.goit("add", "huge")
+			k.goit("status")
+			w.Edit("rmdir", "huge", nil)
+			k.goit("status")
+			k.goit("add", "huge/16MiB.bin", "huge/32MiB.bin", "huge/64MiB.bin")
+			c.Count("scale.huge-file-histories")
 		}
 		if w.Hist%25 == 11 {
 			// scale: hundreds of tracked files, about half of them modified, a few deleted; the report is asked for
